@@ -298,7 +298,7 @@ fn module_variants(text: &str, base: &Snap, thorough: bool, out: &mut CaseOut) -
     let max_sub = if thorough { 2 } else { 1 };
     let mk_boundary = |i: usize| GraphNode::ModuleBoundary { input: i % 2 == 0, import_expr: Span::call_site() };
     let mut check = |label: String, f: &dyn Fn(&mut dfir_lang::graph::DfirGraph)| {
-        let Ok(Ok(mut g)) = pipeline::build_flat(text) else {
+        let Ok(Ok((mut g, _))) = pipeline::build_flat(text) else {
             out.machinery = Some("rebuild of an accepted program failed".into());
             return;
         };
